@@ -118,6 +118,12 @@ def session (fuel : Nat) : State → List String → State × List ReplOut
   | st, [] => (st, [])
   | st, g :: gs => ((session fuel (submit fuel st g).1 gs).1, (submit fuel st g).2 :: (session fuel (submit fuel st g).1 gs).2)
 
+/-- the `i`-th texts of two sessions have the same tokens at the same locations -/
+def SameLocTokens : List String → List String → Prop
+  | [], [] => True
+  | g :: gs, h :: hs => Lex.all g.toList = Lex.all h.toList ∧ SameLocTokens gs hs
+  | _, _ => False
+
 /-- everything a session wrote to standard output -/
 def transcript (outs : List ReplOut) : String := String.join (outs.map (·.stdout))
 
